@@ -292,7 +292,8 @@ def gen_fn(g, header_words, block_lines):
     hi = g.cur_line() - 1
     if g.stub:
         return
-    g.fns.append({"qual": shown, "lo": lo, "hi": hi, "src": path, "src_line": item.line})
+    mname = re.search(r"\bfn\s+([A-Za-z0-9_]+)", emit_trim(sig))
+    g.fns.append({"qual": shown, "lo": lo, "hi": hi, "src": path, "src_line": item.line, "rust_name": mname.group(1) if mname else shown})
 
 
 def gen_adt(g, kind, words):
